@@ -64,6 +64,12 @@ def lexer_half(ctx, what):
             ctx.violation("tie", "lexer fact extractor failed on /repo's source (fails closed)",
                           dict(output=(r.get("out") or "")[-2000:]), found_input=False)
             return out, []
+    from .extract_lex import check_unicode_tables
+    uok, uout = check_unicode_tables(ctx)
+    out["unicode_tables_match_toolchain"] = uok
+    if not uok:
+        ctx.violation("tie", "the Unicode class tables of the lexer model are not the Go toolchain's: " + uout[-300:],
+                      dict(output=uout[-2000:]), found_input=False)
     mism, counters = prop_C16.lex_stream(ctx)
     out["counters"] = {k: v for k, v in counters.items() if k not in ("samples",)}
     return out, mism
@@ -210,7 +216,13 @@ PROPS = {"C08": dict(
              "list that ends in EOF: never a panic, never out of its linear fuel, every success strictly advances and "
              "stays before EOF; tied to the code by running the real lexer+parser+Compile and the model on valid "
              "programs, all their prefixes, one-token deletions/duplications/swaps, token soups, random bytes and "
-             "arbitrary regex bodies.",
+             "arbitrary regex bodies. Lexer: C08_lexer_total_all_sources — for EVERY byte string (UTF-8 decoded as "
+             "bufio.ReadRune does, malformed bytes as U+FFFD; every non-ASCII rune replaced by the byte of its "
+             "unicode.IsLetter/IsDigit/IsSpace class, Model/Unicode.lean) the lexer model returns a token list ending in "
+             "exactly one EOF or one of four printable errors, never panics, and terminates (well-founded recursion, no "
+             "fuel); tied by the token-level stream (kinds, lexemes, rune offsets; on non-ASCII sources kinds and "
+             "offsets) incl. 1.5 k non-ASCII sources, tokens/gaps longer than the 4096-byte read buffer and 172 "
+             "deeply nested sources.",
         note="Parser fully covered (no partial region). The regex sub-parser is an opaque parameter assumed not to panic "
              "(fix C08-regexp-recover makes that true of the code); generator/checker behind Compile are exercised, not "
              "proved. Theorems are about the FIXED parser: patches /verif/fixes/C08-pratt-bounds, C08-named-nilerr, "
@@ -220,7 +232,10 @@ PROPS = {"C08": dict(
     trusted_base=["the token list handed to the model is the one ast.VerifTokens returns for the same source",
                   "Go's recover() turns a panic inside parse_regexp into a ParseError (fix C08-regexp-recover)",
                   "the normalisation of the Go dump in Vore/Driver/SExp.lean (progOf) is the one the model builds trees in"],
-    assumptions=["EndsEof: the lexer returns pre ++ [EOF] with no EOF inside (established by getTokens' loop; proved for "
+    assumptions=["the Go lexer looks at a non-ASCII rune only through unicode.IsSpace/IsDigit/IsLetter and "
+                 "strings.ToLower (class abstraction of Model/Unicode.lean; tables regenerated from the toolchain and "
+                 "compared on every run; exercised by the unicode token stream)",
+                 "EndsEof: the lexer returns pre ++ [EOF] with no EOF inside (established by getTokens' loop; proved for "
                  "the lexer model in Props/C08lex)",
                  "the regex sub-parser does not panic (hypothesis hrx of every theorem)",
                  "NUMBER lexemes are what strconv.Atoi sees; Atoi is modelled as: optional sign, digits, int64 range"]),
